@@ -117,7 +117,7 @@ def run_real(t, prof, vals):
             run.outcome = ("ret", r)
         except asyncio.TimeoutError:
             run.outcome = ("hang",)
-        except Exception as e:
+        except (Exception, S.BoomBase) as e:
             run.outcome = ("exc", e)
     finally:
         n_at_return = len(run.events)
